@@ -4,4 +4,6 @@ use vstd::prelude::*;
 use std::collections::{BTreeMap, VecDeque};
 use core::convert::TryFrom;
 use vstd::std_specs::convert::*;
+use vstd::std_specs::btree::*;
+use vstd::std_specs::cmp::OrdSpec;
 verus! {
